@@ -848,11 +848,11 @@ def _push_of(c):
     return None
 
 
-def model_run(prog, lib, env=None, disabled=()):
-    """(ok, stack, fired).  prog: list of int (opcode) / bytes (pushed data)."""
+def model_run(prog, lib, env=None, disabled=(), init=()):
+    """(ok, stack, fired).  prog: list of int (opcode) / bytes (pushed data); init: initial stack."""
     env = env or {}
     fired = Fired(disabled)
-    st = []
+    st = list(init)
     try:
         if lib:
             _run_lib(list(prog), st, fired, env)
@@ -1054,13 +1054,41 @@ def compare_program(prog, env=None, msg=None, cons_env=None):
     if ok_c != ok_r or (ok_r and st_c != st_r):
         raise HarnessBug('model(consensus) != reference interpreter for %s: %r vs %r' % (
             show(prog), (ok_c, hexs(st_c)), (ok_r, hexs(st_r), err)))
-    expP, expQ = predictions(ok_r, st_r, cast_to_bool)
     obsP = lib_eval(prog, msg, env)
     obsQ = lib_eval(list(prog) + [0x51], msg, env)
+    return classify(prog, menv, (ok_r, st_r, err), obsP, obsQ, env)
+
+
+def classify(prog, menv, ref, obsP, obsQ=None, env=None, site='evaluate'):
+    """Compare library observations of P (and optionally of P+[OP_1]) with the reference result `ref` = (ok, stack,
+    error); name the deviation through the library model run in environment menv."""
+    ok_r, st_r, err = ref
+    expP, expQ = predictions(ok_r, st_r, cast_to_bool)
     outcome = 'valid' if expP[0] else ('false_top' if ok_r else 'error')
-    direction = _direction((obsP, expP), (obsQ, expQ))
+    pairs = [(obsP, expP)] + ([(obsQ, expQ)] if obsQ is not None else [])
+    direction = _direction(*pairs)
     if direction is None:
         return [], outcome, ok_r
+    explained, first = model_explains(prog, menv, obsP, obsQ)
+    detail = {'program': show(prog), 'consensus': {'valid': expP[0], 'ran': ok_r, 'final_stack': hexs(st_r) if ok_r else err},
+              'library': {'evaluate(P)': _obs_show(obsP)}}
+    if obsQ is not None:
+        detail['library']['evaluate(P+[OP_1])'] = _obs_show(obsQ)
+    if env:
+        detail['env_data'] = {k: (v.hex()[:20] if isinstance(v, bytes) else v) for k, v in env.items()}
+    if explained:
+        detail['named_deviations_in_this_program'] = explained
+        devs = [{'sig': 'evaluate|%s|by|%s' % (direction, d), 'detail': detail} for d in explained]
+    else:
+        detail['library_model'] = {'valid': first[3][0], 'ran': first[0], 'final_stack': hexs(first[1]),
+                                   'fired': first[2]}
+        devs = [{'sig': '%s|%s|unexplained' % (site, direction), 'detail': detail}]
+    return devs, 'dev:' + direction, True
+
+
+def model_explains(prog, menv, obsP, obsQ=None, init=()):
+    """(sorted named deviations, first model result): the deviations that fired in a library-model run whose
+    predictions equal the observations, or (None, ...) when no such run exists."""
     first = None
     explained = None
     queue = [frozenset()]
@@ -1070,7 +1098,7 @@ def compare_program(prog, env=None, msg=None, cons_env=None):
         if dis in tried:
             continue
         tried.add(dis)
-        ok_m, st_m, fired = model_run(prog, True, menv, dis)
+        ok_m, st_m, fired = model_run(prog, True, menv, dis, init)
         truth = _lib_truth
         if ok_m and st_m and _lib_truth(st_m[-1]) != cast_to_bool(st_m[-1]):
             if END_DEV in dis:
@@ -1080,23 +1108,13 @@ def compare_program(prog, env=None, msg=None, cons_env=None):
         mP, mQ = predictions(ok_m, st_m, truth)
         if first is None:
             first = (ok_m, st_m, sorted(fired), mP)
-        if _direction((obsP, mP), (obsQ, mQ)) is None and fired:
+        pairs = [(obsP, mP)] + ([(obsQ, mQ)] if obsQ is not None else [])
+        if _direction(*pairs) is None and (fired or init):
             explained = sorted(fired)
             break
         # the tree may have some of the repairable deviations repaired: switch fired ones back to consensus
         queue += [dis | {d} for d in sorted(fired) if d in REPAIRABLE]
-    detail = {'program': show(prog), 'consensus': {'valid': expP[0], 'ran': ok_r, 'final_stack': hexs(st_r) if ok_r else err},
-              'library': {'evaluate(P)': _obs_show(obsP), 'evaluate(P+[OP_1])': _obs_show(obsQ)}}
-    if env:
-        detail['env_data'] = {k: (v.hex()[:20] if isinstance(v, bytes) else v) for k, v in env.items()}
-    if explained:
-        detail['named_deviations_in_this_program'] = explained
-        devs = [{'sig': 'evaluate|%s|by|%s' % (direction, d), 'detail': detail} for d in explained]
-    else:
-        detail['library_model'] = {'valid': first[3][0], 'ran': first[0], 'final_stack': hexs(first[1]),
-                                   'fired': first[2]}
-        devs = [{'sig': 'evaluate|%s|unexplained' % direction, 'detail': detail}]
-    return devs, 'dev:' + direction, True
+    return explained, first
 
 
 def _obs_show(o):
@@ -1681,8 +1699,288 @@ def sub_locktime(case):
     return acc.result()
 
 
+# ------------------------------------------------------------------ histories on ONE Script object
+# Script.evaluate(message=None, env_data=None): "Leave empty to use Script.message. If supplied Script.message will be
+# ignored" (same for env_data).  So the message a call is documented to use is: the argument when it is not None,
+# otherwise the attribute Script.message as it can be read just before the call; every call starts on an empty stack.
+HIST_MSGS = [None, 'A', 'B']
+
+
+def hist_templates(mt):
+    """name -> (unlock items, lock items, env variants, parse_only).  All signatures are over digest A."""
+    k = mt.pk
+    multi_lock = [0x52, k[0], k[1], k[2], 0x53, 0xae]
+    redeem = ser(multi_lock)
+    other = ser([0x51, k[3], 0x51, 0xae])
+    spk = [0xa9, codec.hash160(redeem), 0x87]
+    return {
+        'p2pk': ([mt.sig(0)], [k[0], 0xac], [None], False),
+        'p2pkh': ([mt.sig(0), k[0]], [0x76, 0xa9, codec.hash160(k[0]), 0x88, 0xac], [None], False),
+        'multisig': ([0, mt.sig(0), mt.sig(2)], multi_lock + [0x51],
+                     [None, {'redeemscript': redeem}, {'redeemscript': other}], False),
+        'p2sh_multisig': ([0, mt.sig(0), mt.sig(2), redeem], spk, [None, {'redeemscript': redeem}, {}], True),
+    }
+
+
+def hist_ops(envs):
+    ops = [['eval', m, e] for m in HIST_MSGS for e in range(len(envs))]
+    ops += [['read_stack'], ['poke_stack'], ['add_empty', 'A'], ['add_empty', 'B']]
+    return ops
+
+
+def hist_ctors(parse_only):
+    out = [] if parse_only else [['ctor', m] for m in HIST_MSGS]
+    out += [['parse', m] for m in HIST_MSGS]
+    if not parse_only:
+        out += [['add_ctor', a, b] for a in HIST_MSGS for b in HIST_MSGS]
+    out += [['add_parse', a, b] for a in HIST_MSGS for b in HIST_MSGS]
+    return out
+
+
+def _flat(cmds):
+    out = []
+    for c in cmds:
+        if isinstance(c, list):
+            out += _flat(c)
+        else:
+            out.append(c if isinstance(c, int) else bytes(c))
+    return out
+
+
+def _same_prog(cmds, prog):
+    """Script.commands (p2sh: the redeemscript is kept as a nested list) against the intended item list."""
+    got = _flat(cmds)
+    want = []
+    for c in prog:
+        if not isinstance(c, int) and len(c) > 80 and c[-1:] == b'\xae':
+            want += [op if d is None else bytes(d) for op, d in codec.script_tokens(c)]
+        else:
+            want.append(c)
+    norm = lambda x: [(_push_of(i) if isinstance(i, int) and _push_of(i) is not None else i) for i in x]
+    return norm(got) == norm(want)
+
+
+def hist_build(S, ctor, unlock, lock, msgs):
+    kind = ctor[0]
+    if kind == 'ctor':
+        return S.Script(list(unlock) + list(lock), message=msgs[ctor[1]])
+    if kind == 'parse':
+        return S.Script.parse_bytes(ser(unlock + lock), message=msgs[ctor[1]])
+    if kind == 'add_ctor':
+        return S.Script(list(unlock), message=msgs[ctor[1]]) + S.Script(list(lock), message=msgs[ctor[2]])
+    a = S.Script.parse_bytes(ser(unlock), message=msgs[ctor[1]])
+    b = S.Script.parse_bytes(ser(lock), message=msgs[ctor[2]])
+    return a + b
+
+
+def hist_judge(tpl, prog, obs, msg, env, prev_stack):
+    """Deviations of one evaluate() call of a history from the reference verdict for (msg, env)."""
+    menv = dict(env or {})
+    if msg is not None:
+        menv['digest'] = msg
+    if tpl == 'p2sh_multisig':
+        unlock_n = 4
+        ss, spk = ser(prog[:unlock_n]), ser(prog[unlock_n:])
+        exp = bool(msg is not None and interp.verify_script(ss, spk, [], RefChecker(msg, None)))
+        if (obs[0] == 'valid') == exp:
+            return [], 'valid' if exp else 'invalid', None
+        flat = prog[:unlock_n - 1] + [op if d is None else bytes(d) for op, d in codec.script_tokens(
+            prog[unlock_n - 1])] + prog[unlock_n:]
+        direction = 'accepts_invalid' if obs[0] == 'valid' else 'differs'
+        ok_m, st_m, fired = model_run(flat, True, menv)
+        mvalid = bool(ok_m and st_m and st_m[-1] != b'')
+        detail = {'scriptSig+scriptPubKey': show(prog), 'consensus_valid': exp, 'library': obs[0]}
+        if mvalid == (obs[0] == 'valid') and fired:
+            return [{'sig': 'parse_bytes+evaluate(p2sh_multisig)|%s|by|%s' % (direction, d), 'detail': detail}
+                    for d in sorted(fired)], 'dev:' + direction, (flat, menv)
+        return [{'sig': 'history|%s|unexplained' % direction, 'detail': detail}], 'dev:' + direction, (flat, menv)
+    ok_r, st_r, err = interp.run(ser(prog), [], RefChecker(msg, None))
+    devs, out, _ = classify(prog, menv, (ok_r, st_r, err), obs, None, env, site='history')
+    return devs, out, (prog, menv)
+
+
+def hist_name_class(devs, model_prog, obs, msgs, envs, msg_eff, env_eff, prev_stack):
+    """Give an unexplained deviation of a history step the name of the state leak that reproduces it."""
+    if not devs or not any(d['sig'].endswith('|unexplained') for d in devs) or model_prog is None:
+        return devs
+    prog, menv = model_prog
+
+    def matches(m, e, init=()):
+        env2 = dict(e or {})
+        if m is not None:
+            env2['digest'] = m
+        ok_m, st_m, fired = model_run(prog, True, env2, (), init)
+        mP = predictions(ok_m, st_m, _lib_truth)[0]
+        return _direction((obs, mP)) is None
+    cls = None
+    for name, m in msgs.items():
+        if m != msg_eff and matches(m, env_eff):
+            cls = 'message_other_than_documented_used'
+            break
+    if cls is None:
+        for e in envs:
+            if e != env_eff and matches(msg_eff, e):
+                cls = 'env_data_other_than_documented_used'
+                break
+    if cls is None and prev_stack and matches(msg_eff, env_eff, prev_stack):
+        cls = 'stack_not_reset_between_evaluations'
+    if cls is None:
+        return devs
+    out = []
+    for d in devs:
+        if d['sig'].endswith('|unexplained'):
+            d = {'sig': d['sig'][:-len('unexplained')] + cls, 'detail': d['detail']}
+        out.append(d)
+    return out
+
+
+def hist_run(S, tpl, unlock, lock, envs, ctor, seq, msgs):
+    """Execute one history on one object.  Returns (devs, outcomes, n_evaluations)."""
+    prog = list(unlock) + list(lock)
+    devs, outs, n = [], [], 0
+    trace = [ctor]
+    try:
+        s = hist_build(S, ctor, unlock, lock, msgs)
+    except Exception as e:
+        return [{'sig': 'history|construction_raises', 'detail': {'template': tpl, 'ctor': ctor, 'exc': repr(e)[:120]}}], \
+            ['dev:construction'], 0
+    if not _same_prog(s.commands, prog):
+        return [], ['parsed_differently'], 0     # Script.parse heuristics on partial scripts are the subject of C18
+    if ctor[0] in ('ctor', 'parse') and s.message != msgs[ctor[1]]:
+        devs.append({'sig': 'history|message_given_at_construction_not_stored', 'detail': {
+            'template': tpl, 'ctor': ctor, 'Script.message': repr(s.message)[:80]}})
+    prev_stack = []
+    for op in seq:
+        trace.append(op)
+        if op[0] == 'read_stack':
+            prev_stack = [bytes(x) for x in s.stack]
+        elif op[0] == 'poke_stack':
+            s.stack.append(b'\x01')
+            prev_stack = [bytes(x) for x in s.stack]
+        elif op[0] == 'add_empty':
+            s = s + S.Script([], message=msgs[op[1]])
+        else:
+            stored_msg, stored_env = s.message, s.env_data
+            arg_msg = msgs[op[1]]
+            arg_env = envs[op[2]]
+            msg_eff = arg_msg if arg_msg is not None else stored_msg
+            env_eff = dict(arg_env) if arg_env is not None else dict(stored_env or {})
+            if isinstance(msg_eff, str):
+                msg_eff = bytes.fromhex(msg_eff)
+            try:
+                r = s.evaluate(message=arg_msg, env_data=dict(arg_env) if arg_env is not None else None)
+                obs = ('valid', [bytes(x) for x in s.stack]) if r is True else (
+                    ('invalid', None) if r is False else ('nonbool', repr(r)[:60]))
+            except Exception as e:
+                obs = ('raise', repr(e)[:100])
+            n += 1
+            d, out, model_prog = hist_judge(tpl, prog, obs, msg_eff, env_eff, prev_stack)
+            d = hist_name_class(d, model_prog, obs, msgs, [e for e in envs], msg_eff, env_eff, prev_stack)
+            for x in d:
+                x['detail'] = dict(x['detail'], history=_hist_show(trace), stored_message_before_call=(
+                    None if stored_msg is None else ('A' if stored_msg == msgs['A'] else 'B' if stored_msg == msgs[
+                        'B'] else repr(stored_msg)[:40])), documented_message=(
+                    None if msg_eff is None else ('A' if msg_eff == msgs['A'] else 'B' if msg_eff == msgs['B'] else '?')))
+            devs += d
+            outs.append(out)
+            prev_stack = [bytes(x) for x in s.stack]
+            if not _same_prog(s.commands, prog):
+                devs.append({'sig': 'history|evaluate_changes_commands', 'detail': {'history': _hist_show(trace)}})
+    return devs, outs, n
+
+
+def _hist_show(trace):
+    return ' ; '.join('%s(%s)' % (t[0], ','.join(str(x) for x in t[1:])) for t in trace)
+
+
+def sub_hist(case):
+    """case = {'seed', 'tpl', 'ctor', 'first': op index or None, 'L'}: every operation sequence of length <= L that
+    starts with operation `first`, executed on one Script object built by `ctor`."""
+    S = _lib()
+    mt = material(case['seed'])
+    msgs = {None: None, 'A': mt.digest, 'B': mt.other_digest}
+    unlock, lock, envs, _ = hist_templates(mt)[case['tpl']]
+    ops = hist_ops(envs)
+    acc = Acc()
+    if case['first'] is None:
+        seqs = [[]]
+    else:
+        seqs = []
+        for l in range(0, case['L']):
+            seqs += [[ops[case['first']]] + [ops[i] for i in t] for t in itertools.product(range(len(ops)), repeat=l)]
+    for seq in seqs:
+        devs, outs, n = hist_run(S, case['tpl'], unlock, lock, envs, case['ctor'], seq, msgs)
+        acc.n += max(n, 1)
+        key = '%s:%s:%s' % (case['tpl'], case['ctor'], seq)
+        acc.add(key, devs, ','.join(outs) or 'no_evaluate', bool(n))
+    return acc.result()
+
+
+def sub_reeval(case):
+    """case = {'block': [lo, hi], 'k': evaluations}: non-signature programs evaluated k times on ONE object, with
+    {nothing, read .stack, append an item to .stack} between the calls; every call must give the reference result
+    (the stack starts empty each time, the commands are not consumed)."""
+    S = _lib()
+    progs = reeval_programs()
+    acc = Acc()
+    for pi in range(case['block'][0], case['block'][1]):
+        for tail in ([], [0x51]):
+            prog = progs[pi] + tail
+            ref = interp.run(ser(prog), [], interp.NullChecker())
+            for between in ('none', 'read', 'poke'):
+                try:
+                    s = S.Script(list(prog))
+                except Exception as e:
+                    acc.add('%d' % pi, [{'sig': 'history|construction_raises', 'detail': {'program': show(prog)}}],
+                            'dev', True)
+                    continue
+                prev = []
+                for k in range(case['k']):
+                    try:
+                        r = s.evaluate()
+                        obs = ('valid', [bytes(x) for x in s.stack]) if r is True else (
+                            ('invalid', None) if r is False else ('nonbool', repr(r)[:60]))
+                    except Exception as e:
+                        obs = ('raise', repr(e)[:100])
+                    acc.n += 1
+                    devs, out, _ = classify(prog, {}, ref, obs, None, None, site='history')
+                    if k and any(d['sig'].endswith('|unexplained') for d in devs):
+                        devs = hist_name_class(devs, (prog, {}), obs, {None: None}, [None], None, {}, prev)
+                    for d in devs:
+                        d['detail'] = dict(d['detail'], evaluation_number=k + 1, between_calls=between)
+                    acc.add('%d:%d:%s:%d' % (pi, len(tail), between, k), devs, out, ref[0])
+                    if between == 'poke':
+                        s.stack.append(b'\x02')
+                    prev = [bytes(x) for x in s.stack]
+                    if [c for c in s.commands] != list(prog):
+                        acc.add('%d:cmd' % pi, [{'sig': 'history|evaluate_changes_commands', 'detail': {
+                            'program': show(prog)}}], 'dev', True)
+    return acc.result()
+
+
+_REEVAL = []
+
+
+def reeval_programs():
+    """All programs of length <= 2 over the program alphabet, every opcode on the 1- and 2-item stacks over
+    {"",00,01,81}, and the conditional trees of depth <= 2 with inline conditions."""
+    if not _REEVAL:
+        for l in (1, 2):
+            _REEVAL.extend([list(t) for t in itertools.product(PROG_ALPHA, repeat=l)])
+        small = [b'', b'\x00', b'\x01', b'\x81']
+        for c in PLAIN_OPS:
+            for st in stacks(small, 1, 2):
+                _REEVAL.append(list(st) + [c])
+        for tree, nconds in _cond_all():
+            if nconds <= 2:
+                for conds in itertools.product(COND_VALUES, repeat=nconds):
+                    _REEVAL.append(cond_program(tree, list(conds), True, 1))
+    return _REEVAL
+
+
+
 SUBS = {'op_direct': sub_op_direct, 'op_eval': sub_op_eval, 'prog': sub_prog, 'cond': sub_cond, 'sig': sub_sig,
-        'multisig': sub_multisig, 'locktime': sub_locktime}
+        'multisig': sub_multisig, 'locktime': sub_locktime, 'hist': sub_hist, 'reeval': sub_reeval}
 
 
 # --------------------------------------------------------------------------------------- selftest
@@ -1784,6 +2082,24 @@ def run(ctx):
     if want('locktime'):
         ctx.pmap('locktime', [{'seed': seed, 'op': 'cltv', 'operand': n} for n in CLTV_OPERANDS] +
                  [{'seed': seed, 'op': 'csv', 'operand': n} for n in CSV_OPERANDS], chunk=1)
+    # (e) histories on one Script object
+    if want('hist'):
+        L = 2 if q else 3
+        mt = material(seed)
+        cases = []
+        for tpl, (_, _, envs, parse_only) in sorted(hist_templates(mt).items()):
+            nops = len(hist_ops(envs))
+            for ctor in hist_ctors(parse_only):
+                cases.append({'seed': seed, 'tpl': tpl, 'ctor': ctor, 'first': None, 'L': L})
+                cases += [{'seed': seed, 'tpl': tpl, 'ctor': ctor, 'first': i, 'L': L} for i in range(nops)]
+        ctx.pmap('hist', cases, chunk=1)
+        ctx.note('history_bounds', {'max_operations_after_construction': L, 'templates': sorted(hist_templates(mt)),
+                                    'constructions': [_hist_show([c]) for c in hist_ctors(False)]})
+    if want('reeval'):
+        nre = len(reeval_programs())
+        step = 200
+        ctx.pmap('reeval', [{'block': [a, min(a + step, nre)], 'k': 2 if q else 3} for a in range(0, nre, step)],
+                 chunk=1)
     ctx.note('bounds', {'opcode_stacks': 'depth<=3 over %d items; depth 4-6 over %d items for %d deep opcodes' % (
         len(items(seed)), len(DEEP_ITEMS), len(DEEP_OPS)), 'opcodes': len(PLAIN_OPS),
         'items': [x.hex() for x in items(seed)]})
